@@ -43,13 +43,14 @@ VARIABLES att,      \* [Remotes -> BOOLEAN]             remote registered in the
           gref,     \* [Remotes -> [Lanes -> [Keys -> Int]]] fold of the map operations pushed for r
           grep,     \* [Remotes -> [Lanes -> [Keys -> Int]]] fold of the map operations emitted to r
           gsyn,     \* [Remotes -> [Lanes -> Nat]]      synced markers pushed for r minus synced frames emitted
+          gowed,    \* [Remotes -> [Lanes -> BOOLEAN]]  a synced was pushed and no synced frame was emitted since (several may share one)
           ok,       \* FALSE as soon as an emitted frame breaks P
           lastAct
 
 mvars == <<att, linked, alive, wr, infl, spq, wq, up, npush, nspec>>
-gvars == <<gopen, gval, gdue, gsup, gref, grep, gsyn, ok>>
+gvars == <<gopen, gval, gdue, gsup, gref, grep, gsyn, gowed, ok>>
 vars == <<mvars, gvars, lastAct>>
-View == <<att, linked, alive, wr, infl, spq, wq, up, npush, nspec, gopen, gval, gdue, gsup, gref, grep, gsyn, ok>>
+View == <<att, linked, alive, wr, infl, spq, wq, up, npush, nspec, gopen, gval, gdue, gsup, gref, grep, gsyn, gowed, ok>>
 
 NoTask == [a |-> "none"]
 NoUplink == [ex |-> FALSE, queued |-> FALSE, ss |-> FALSE, pend |-> FALSE, val |-> 0, fifo |-> <<>>, mq |-> <<>>]
@@ -62,7 +63,7 @@ Init ==
     /\ spq = [r \in Remotes |-> <<>>] /\ wq = [r \in Remotes |-> <<>>] /\ up = RL(NoUplink)
     /\ npush = 0 /\ nspec = 0
     /\ gopen = RL(FALSE) /\ gval = RL(0) /\ gdue = RL(0) /\ gsup = RL(<<>>)
-    /\ gref = RL(EmptyMap) /\ grep = RL(EmptyMap) /\ gsyn = RL(0) /\ ok = TRUE
+    /\ gref = RL(EmptyMap) /\ grep = RL(EmptyMap) /\ gsyn = RL(0) /\ gowed = RL(FALSE) /\ ok = TRUE
     /\ lastAct = [k |-> "init"]
 
 -----------------------------------------------------------------------------
@@ -182,12 +183,24 @@ GhostPush(r, l, resp, g) ==
     CASE resp.t = "value"  -> [g EXCEPT !.due = resp.body]
       [] resp.t = "supply" -> [g EXCEPT !.sup = Append(@, resp.body)]
       [] resp.t = "map"    -> [g EXCEPT !.ref = ApplyOp(@, resp.body)]
-      [] resp.t = "synced" -> [g EXCEPT !.syn = @ + 1]
+      [] resp.t = "synced" -> [g EXCEPT !.syn = @ + 1, !.owed = TRUE]
 
-G(r, l) == [due |-> gdue[r][l], sup |-> gsup[r][l], ref |-> gref[r][l], syn |-> gsyn[r][l]]
+G(r, l) == [due |-> gdue[r][l], sup |-> gsup[r][l], ref |-> gref[r][l], syn |-> gsyn[r][l], owed |-> gowed[r][l]]
 
-\* an unlinked that is queued behind a lent writer discards that lane's pending data: the obligations go with it
-GhostReset(r, l) == [due |-> 0, sup |-> <<>>, ref |-> grep[r][l], syn |-> 0]
+\* An unlinked that has to queue behind a lent writer discards that lane's *queued* data: the obligations
+\* go with it.  What is already in flight is still written.
+InFl(r, l) == SelectSeq(Frames(infl[r]), LAMBDA fr : fr.lane = l)
+RECURSIVE Bodies(_)
+Bodies(frs) == IF frs = <<>> THEN <<>>
+               ELSE (IF Head(frs).f = "event" THEN <<Head(frs).body>> ELSE <<>>) \o Bodies(Tail(frs))
+GhostResetF(r, l, frs) ==
+    LET b == Bodies(frs) IN
+    [due |-> IF KindOf[l] = "value" /\ b # <<>> THEN b[Len(b)] ELSE 0,
+     sup |-> IF KindOf[l] = "supply" THEN b ELSE <<>>,
+     ref |-> IF KindOf[l] = "map" THEN FoldOps(grep[r][l], b) ELSE grep[r][l],
+     syn |-> Len(SelectSeq(frs, LAMBDA fr : fr.f = "synced")),
+     owed |-> Len(SelectSeq(frs, LAMBDA fr : fr.f = "synced")) > 0]
+GhostReset(r, l) == GhostResetF(r, l, InFl(r, l))
 
 \* P evaluated on one emitted frame, with the ghost state before it; returns the new ghost record and verdict
 EmitOne(r, fr, st) ==
@@ -197,7 +210,7 @@ EmitOne(r, fr, st) ==
     CASE fr.f = "linked" -> [st EXCEPT !.open[l] = TRUE]
       [] fr.f = "unlinked" -> [st EXCEPT !.ok = @ /\ st.open[l], !.open[l] = FALSE]
       [] fr.f = "synced" -> [st EXCEPT !.ok = @ /\ st.open[l] /\ st.syn[l] > 0,
-                                       !.syn[l] = IF @ > 0 THEN @ - 1 ELSE 0]
+                                       !.syn[l] = IF @ > 0 THEN @ - 1 ELSE 0, !.owed[l] = FALSE]
       [] fr.f = "event" ->
            CASE KindOf[l] = "value" ->
                   \* never invented, never reordered: a value pushed for r, not older than the previous one
@@ -214,7 +227,7 @@ RECURSIVE EmitAll(_, _, _)
 EmitAll(r, frs, st) == IF frs = <<>> THEN st ELSE EmitAll(r, Tail(frs), EmitOne(r, Head(frs), st))
 
 GState(r) == [open |-> gopen[r], val |-> gval[r], due |-> gdue[r], sup |-> gsup[r], ref |-> gref[r],
-              rep |-> grep[r], syn |-> gsyn[r], ok |-> ok]
+              rep |-> grep[r], syn |-> gsyn[r], owed |-> gowed[r], ok |-> ok]
 
 -----------------------------------------------------------------------------
 (* The calls of the write task.                                             *)
@@ -226,6 +239,7 @@ Attach(r) ==
     /\ gopen' = [gopen EXCEPT ![r] = [l \in Lanes |-> FALSE]]
     /\ gval' = [gval EXCEPT ![r] = [l \in Lanes |-> 0]] /\ gdue' = [gdue EXCEPT ![r] = [l \in Lanes |-> 0]]
     /\ gsup' = [gsup EXCEPT ![r] = [l \in Lanes |-> <<>>]] /\ gsyn' = [gsyn EXCEPT ![r] = [l \in Lanes |-> 0]]
+    /\ gowed' = [gowed EXCEPT ![r] = [l \in Lanes |-> FALSE]]
     /\ gref' = [gref EXCEPT ![r] = [l \in Lanes |-> EmptyMap]] /\ grep' = [grep EXCEPT ![r] = [l \in Lanes |-> EmptyMap]]
     /\ lastAct' = [k |-> "attach", r |-> r, sched |-> {}]
     /\ UNCHANGED <<linked, alive, npush, nspec, ok>>
@@ -254,10 +268,12 @@ Unlink(r, l) ==
                  /\ lastAct' = [k |-> "unlink", r |-> r, lane |-> l, sched |-> IF wr[r] = "present" THEN {r} ELSE {}]
               \* pending data of that lane is discarded when the unlinked has to queue
               /\ IF wr[r] = "lent"
-                   THEN /\ gdue' = [gdue EXCEPT ![r][l] = 0] /\ gsup' = [gsup EXCEPT ![r][l] = <<>>]
-                        /\ gref' = [gref EXCEPT ![r][l] = grep[r][l]] /\ gsyn' = [gsyn EXCEPT ![r][l] = 0]
-                   ELSE UNCHANGED <<gdue, gsup, gref, gsyn>>
-         ELSE /\ UNCHANGED <<linked, wr, infl, spq, wq, up, gdue, gsup, gref, gsyn>>
+                   THEN LET g == GhostReset(r, l) IN
+                        /\ gdue' = [gdue EXCEPT ![r][l] = g.due] /\ gsup' = [gsup EXCEPT ![r][l] = g.sup]
+                        /\ gref' = [gref EXCEPT ![r][l] = g.ref] /\ gsyn' = [gsyn EXCEPT ![r][l] = g.syn]
+                        /\ gowed' = [gowed EXCEPT ![r][l] = g.owed]
+                   ELSE UNCHANGED <<gdue, gsup, gref, gsyn, gowed>>
+         ELSE /\ UNCHANGED <<linked, wr, infl, spq, wq, up, gdue, gsup, gref, gsyn, gowed>>
               /\ lastAct' = [k |-> "unlink", r |-> r, lane |-> l, sched |-> {}]
     /\ UNCHANGED <<att, alive, npush, gopen, gval, grep, ok>>
 
@@ -281,6 +297,7 @@ Targeted(l, r, resp) ==
        /\ SetU(r, u2)
        /\ gdue' = [gdue EXCEPT ![r][l] = g.due] /\ gsup' = [gsup EXCEPT ![r][l] = g.sup]
        /\ gref' = [gref EXCEPT ![r][l] = g.ref] /\ gsyn' = [gsyn EXCEPT ![r][l] = g.syn]
+       /\ gowed' = [gowed EXCEPT ![r][l] = g.owed]
        /\ lastAct' = [k |-> "event", lane |-> l, target |-> r, resp |-> resp,
                       sched |-> IF wr[r] = "present" THEN {r} ELSE {}]
     /\ UNCHANGED <<att, alive, nspec, gopen, gval, grep, ok>>
@@ -296,7 +313,7 @@ Broadcast(l, resp) ==
        /\ gsup' = [r \in Remotes |-> IF r \in T /\ att[r] /\ resp.t = "supply" THEN [gsup[r] EXCEPT ![l] = Append(@, resp.body)] ELSE gsup[r]]
        /\ gref' = [r \in Remotes |-> IF r \in T /\ att[r] /\ resp.t = "map" THEN [gref[r] EXCEPT ![l] = ApplyOp(@, resp.body)] ELSE gref[r]]
        /\ lastAct' = [k |-> "event", lane |-> l, target |-> 0, resp |-> resp, sched |-> {r \in T : att[r] /\ wr[r] = "present"}]
-    /\ UNCHANGED <<att, linked, alive, nspec, gopen, gval, grep, gsyn, ok>>
+    /\ UNCHANGED <<att, linked, alive, nspec, gopen, gval, grep, gsyn, gowed, ok>>
 
 \* the environment lets the write in flight for r complete: its frames are on the wire, the writer comes back
 WriteDone(r) ==
@@ -307,7 +324,7 @@ WriteDone(r) ==
        /\ SetU(r, u)
        /\ gopen' = [gopen EXCEPT ![r] = st.open] /\ gval' = [gval EXCEPT ![r] = st.val]
        /\ gsup' = [gsup EXCEPT ![r] = st.sup] /\ grep' = [grep EXCEPT ![r] = st.rep]
-       /\ gsyn' = [gsyn EXCEPT ![r] = st.syn] /\ ok' = st.ok
+       /\ gsyn' = [gsyn EXCEPT ![r] = st.syn] /\ gowed' = [gowed EXCEPT ![r] = st.owed] /\ ok' = st.ok
        /\ lastAct' = [k |-> "done", r |-> r, frames |-> frs, sched |-> IF u.wr = "lent" THEN {r} ELSE {}]
     /\ UNCHANGED <<att, linked, alive, npush, nspec, gdue, gref>>
 
@@ -328,10 +345,11 @@ LaneFailed(l) ==
            f == [r \in Remotes |-> IF r \in T /\ att[r] THEN PushSpecial(U(r), [kind |-> "unlinked", lane |-> l, why |-> ""]) ELSE U(r)] IN
        /\ SetAll(f)
        /\ linked' = {p \in linked : p[1] # l}
-       /\ gdue' = [r \in Remotes |-> IF r \in T /\ wr[r] = "lent" THEN [gdue[r] EXCEPT ![l] = 0] ELSE gdue[r]]
-       /\ gsup' = [r \in Remotes |-> IF r \in T /\ wr[r] = "lent" THEN [gsup[r] EXCEPT ![l] = <<>>] ELSE gsup[r]]
-       /\ gref' = [r \in Remotes |-> IF r \in T /\ wr[r] = "lent" THEN [gref[r] EXCEPT ![l] = grep[r][l]] ELSE gref[r]]
-       /\ gsyn' = [r \in Remotes |-> IF r \in T /\ wr[r] = "lent" THEN [gsyn[r] EXCEPT ![l] = 0] ELSE gsyn[r]]
+       /\ gdue' = [r \in Remotes |-> IF r \in T /\ att[r] /\ wr[r] = "lent" THEN [gdue[r] EXCEPT ![l] = GhostReset(r, l).due] ELSE gdue[r]]
+       /\ gsup' = [r \in Remotes |-> IF r \in T /\ att[r] /\ wr[r] = "lent" THEN [gsup[r] EXCEPT ![l] = GhostReset(r, l).sup] ELSE gsup[r]]
+       /\ gref' = [r \in Remotes |-> IF r \in T /\ att[r] /\ wr[r] = "lent" THEN [gref[r] EXCEPT ![l] = GhostReset(r, l).ref] ELSE gref[r]]
+       /\ gsyn' = [r \in Remotes |-> IF r \in T /\ att[r] /\ wr[r] = "lent" THEN [gsyn[r] EXCEPT ![l] = GhostReset(r, l).syn] ELSE gsyn[r]]
+       /\ gowed' = [r \in Remotes |-> IF r \in T /\ att[r] /\ wr[r] = "lent" THEN [gowed[r] EXCEPT ![l] = GhostReset(r, l).owed] ELSE gowed[r]]
        /\ lastAct' = [k |-> "lanefail", lane |-> l, sched |-> {r \in T : att[r] /\ wr[r] = "present"}]
     /\ UNCHANGED <<att, npush, nspec, gopen, gval, grep, ok>>
 
@@ -373,7 +391,7 @@ CaughtUp == \A r \in Remotes : Drained(r) =>
                  /\ (KindOf[l] = "value" /\ gdue[r][l] > 0) => gval[r][l] = gdue[r][l]    \* never stale
                  /\ (KindOf[l] = "supply") => gsup[r][l] = <<>>                            \* nothing lost
                  /\ (KindOf[l] = "map") => grep[r][l] = gref[r][l]                         \* replica converges
-                 /\ gsyn[r][l] = 0                                                         \* every synced delivered
+                 /\ ~gowed[r][l]                                                           \* the last synced was delivered
 
 \* mechanism sanity: the writer being present means nothing is waiting
 NothingWaiting == \A r \in Remotes : wr[r] = "present" =>
